@@ -3,7 +3,7 @@
 Engine E over programs.  Two parts, both on the real `flowfilter.parse` and the callables it returns:
 
   atoms   every documented operator x a list of regexes (plain, other case, anchored, alternation, dot)
-          x the quoting forms the docs allow (unquoted / "..." / '...') on ten flows of every type,
+          x the quoting forms the docs allow (unquoted / "..." / '...') on eleven flows of every type,
           judged against an independent evaluation of "case-insensitive Python regex applied to the
           documented part of the flow" (only where the documentation defines that part);
   trees   every expression tree up to a depth bound over {!, &, |, juxtaposition} and a set of atoms,
@@ -30,13 +30,13 @@ from vmc.tally import HarnessError, Tally
 META = {
     "level": "exploration",
     "technique": "bounded-exhaustive enumeration of filter programs (expression trees x concrete syntaxes) and of operator x "
-                 "regex x quoting atoms, each parsed by the real flowfilter.parse and evaluated on a fixed set of ten flows "
+                 "regex x quoting atoms, each parsed by the real flowfilter.parse and evaluated on a fixed set of eleven flows "
                  "against a reference evaluator with the documented precedence and regex semantics",
     "claim": "every expression tree up to the depth bound, in each of four renderings, is accepted and has on every flow the "
              "verdict the documented precedence gives; every documented operator applies a case-insensitive Python regex to "
              "the documented part of the flow; program-quantified, so exhaustive enumeration of trees is the fitting level",
     "rule": "a case is one rendered expression string (distinct string = distinct case); non-trivial when it contains at "
-            "least one operator (trees) or, for atoms, when the reference verdict is not the same on all ten flows",
+            "least one operator (trees) or, for atoms, when the reference verdict is not the same on all flows",
     "assumptions": [
         "documented precedence: filters.md says `The default binary operator is &`, so juxtaposition is read as & ; "
         "& binds tighter than | and ! tighter than both (property statement)",
@@ -47,6 +47,10 @@ META = {
         "unit-tested) escape layer, so its meaning for such strings is not fixed by the documentation",
         "spaces are only removed next to parentheses and after `!` (documented reserved characters); `a&b` / `~q|~s` are not "
         "demanded because & | ! are not reserved and may legitimately be part of an unquoted regex",
+        "~d / ~u on a flow whose Host header differs from the request host: a regex matching the request host (resp. both "
+        "spellings of the URL) must match, one matching neither must not; matching only the Host header is not judged",
+        "~src / ~dst are judged on the text `address:port` of the client peer / server address with regexes that do not "
+        "depend on the separator",
         "message bodies are free of newlines and content-encodings, Host headers equal the request host, so DOTALL / decoding / "
         "pretty_host cannot make a difference",
         "pyparsing's infix_notation is exponential in parenthesis nesting (about 10 ms per level-1 group, 1 s at level 3); "
@@ -90,6 +94,15 @@ def make_flows():
     f.marked = ":default:"
     f.is_replay = "request"
     fl.append(("http-marked-replayed", f))
+    # a flow on which every documented part differs from its look-alikes: Host header vs request host (transparent /
+    # spoofed traffic), request vs response header lines, content types and bodies, client vs server address
+    f = tflow.tflow(
+        req=_req(b"GET", b"http", "192.168.0.9", 80, b"/foo",
+                 [(b"Host", b"spoof.test"), (b"X-Tok", b"hval"), (b"Content-Type", b"application/json")], b"reqbody"),
+        resp=_resp(200, [(b"X-Srv", b"sval"), (b"Content-Type", b"text/css")], b"respbody"))
+    f.client_conn.peername = ("10.1.2.3", 50000)
+    f.server_conn.address = ("192.168.0.9", 80)
+    fl.append(("http-host-header-differs", f))
     return fl
 
 
@@ -97,6 +110,8 @@ def describe(name, f):
     """the facts about a flow, written down independently of flowfilter (from the constructor arguments)"""
     d = {"name": name, "kind": type(f).__name__, "error": f.error is not None, "marked": bool(f.marked),
          "replay": f.is_replay}
+    d["src"] = "%s:%s" % tuple(f.client_conn.peername[:2]) if f.client_conn and f.client_conn.peername else None
+    d["dst"] = "%s:%s" % tuple(f.server_conn.address[:2]) if f.server_conn and f.server_conn.address else None
     if d["kind"] == "HTTPFlow":
         r = f.request
         default = {"http": 80, "https": 443}[r.scheme]
@@ -105,6 +120,9 @@ def describe(name, f):
         d["url"] = "%s://%s%s%s" % (r.scheme, r.data.host, "" if r.data.port == default else ":%d" % r.data.port,
                                     r.data.path.decode())
         d["qlines"] = [n.decode() + ": " + v.decode() for n, v in r.data.headers.fields]
+        hh = [v.decode() for n, v in r.data.headers.fields if n.lower() == b"host"]
+        d["host_header"] = hh[0] if hh else None
+        d["url_by_host_header"] = d["url"].replace("://" + d["host"], "://" + hh[0], 1) if hh else d["url"]
         d["qbody"] = r.data.content
         d["has_response"] = f.response is not None
         d["status"] = f.response.data.status_code if f.response else None
@@ -158,6 +176,9 @@ def ref_atom(op, arg, d):
         if kind not in ("HTTPFlow", "DNSFlow"):
             return None
         return d["has_response"] == (op == "~s")
+    if op in ("~src", "~dst"):
+        text = d["src" if op == "~src" else "dst"]
+        return _rx(arg, text) if text is not None else None
     if kind != "HTTPFlow":
         return None
     if op == "~c":
@@ -165,9 +186,15 @@ def ref_atom(op, arg, d):
     if op == "~a":
         return any(any(c.startswith(a) for a in ASSET) for c in _ctype(d["slines"]))
     if op in ("~u", "bare"):
-        return _rx(arg, d["url"])
+        # "request URL": with a differing Host header both spellings are a URL of the request; only judged when they agree
+        a, b = _rx(arg, d["url"]), _rx(arg, d["url_by_host_header"])
+        return a if a == b else None
     if op == "~d":
-        return _rx(arg, d["host"])
+        # "request domain": a regex that matches the host the request goes to must match; one that matches neither that
+        # host nor the Host header must not; matching the Host header alone is left open by the documentation
+        if _rx(arg, d["host"]):
+            return True
+        return None if d["host_header"] is not None and _rx(arg, d["host_header"]) else False
     if op == "~m":
         return _rx(arg, d["method"])
     if op in ("~h", "~hq", "~hs"):
@@ -188,12 +215,15 @@ def ref_atom(op, arg, d):
 # atoms: (operator, argument or None, quoting) -> concrete text
 
 UNARY = ["~q", "~s", "~e", "~http", "~tcp", "~udp", "~dns", "~websocket", "~marked", "~replay", "~replayq", "~replays", "~a", "~all"]
-REXOPS = ["~u", "bare", "~d", "~m", "~h", "~hq", "~hs", "~t", "~tq", "~ts", "~b", "~bq", "~bs"]
+REXOPS = ["~u", "bare", "~d", "~m", "~h", "~hq", "~hs", "~t", "~tq", "~ts", "~b", "~bq", "~bs", "~src", "~dst"]
 REGEXES = [
     "foo", "FOO", "/foo$", "^http://example", "example\\.com", "e.ample", "com$", "^example", "ex", "other|example",
     "GET", "get", "^get$", "G.T", "po?st", "[p]ost",
     "x: y", "X: Y", "^x: y$", "y$", "x-tok: hval", "hval$", "^content-type", "text/css", "TEXT/", "css$", "^image/png$",
     "a", "abc", "^abc$", "reqbody", "REQ.*BODY", "^data$", "respbody$", "a b", "f(o|x)o", "nomatch",
+    # parts that only one of two look-alikes has (see the flow http-host-header-differs)
+    "^192\\.168\\.", "168", "spoof", "spoof\\.test/foo", "sval", "x-srv", "json", "^respbody$",
+    "10\\.1\\.2", "50000", "address", "127\\.0", "^192\\.168\\.0\\.1:",
 ]
 CODES = ["200", "404", "20", "2000", "0200"]
 
